@@ -28,7 +28,8 @@ RULE = (
     "(iii) with a usable cache the vtrace log of open_alos2 has no read touching bytes >= 720 of "
     "any IMG file; (iv) with no cache present use_cache=True equals the uncached tree; (v) with a "
     "stale (decoy) index in the user cache dir, open(use_cache=False, create_cache=True) produces "
-    "the cache again and the following use_cache=True open equals the uncached tree. "
+    "the cache again and the following use_cache=True open equals the uncached tree; (vi) the same "
+    "with the command line tool run over stale index files (local products). "
     "Non-trivial: rpc_write != rpc_read or location=both or non-local filesystem."
 )
 ASSUMPTIONS = [
@@ -151,6 +152,35 @@ def produce(case, prod, files, images):
         if tmp is not None:
             shutil.rmtree(tmp, ignore_errors=True)  # the local copy is gone before the cache is used
     return [], texts
+
+
+def cli_over_stale(case, prod, images, texts, url, ref_flat):
+    out = []
+    for image in images:
+        decoy = decoy_of(texts[image])
+        p = user_index_path(url, image)
+        p.parent.mkdir(parents=True, exist_ok=True)
+        p.write_text(decoy)
+        put_adjacent(prod, image, decoy)
+    to_user = case["location"] == "user"
+    for image in images:
+        argv = ["--rpc", str(case["rpc_write"]), str(prod.dir / image)]
+        if to_user:
+            argv.append(str(user_index_path(url, image).parent))
+        code, stderr = run_cli(argv)
+        if code != 0:
+            return [harness.disc("cli-failed", "ceos-alos2-create-cache over a stale index", "index file written", f"exit {code}: {stderr[:150]}")]
+        # the other location holds no index any more: the tool's output is the only cache
+        if to_user:
+            remove_adjacent(prod, image)
+        else:
+            user_index_path(url, image).unlink(missing_ok=True)
+    t, err = harness.guard(harness.open_tree, url, use_cache=True, records_per_chunk=case["rpc_read"])
+    if err is not None:
+        out.append(harness.disc("exception", "open_alos2(use_cache=True) after the tool re-created the cache", "a tree", harness.exc_text(err)))
+    else:
+        out.extend(harness.diff_flat(ref_flat, harness.flatten(t), kind="stale-cache-kept-by-tool"))
+    return out
 
 
 def decoy_of(text):
@@ -277,6 +307,10 @@ def run_case(case):
                         out.append(harness.disc("exception", "open_alos2(use_cache=True) after re-creating the cache", "a tree", harness.exc_text(err)))
                     else:
                         out.extend(harness.diff_flat(ref_flat, harness.flatten(t), kind="stale-cache-kept"))
+                # (vi) the same with the command line tool: run over stale index files (in the user
+                # dir and next to the image) it produces the cache of the image as it is now
+                if prod.kind in ("local", "file"):
+                    out.extend(cli_over_stale(case, prod, images, texts, url, ref_flat))
         finally:
             cleanup(url, prod, images)
     for d in out:
